@@ -678,6 +678,19 @@ def durationBin (op : BinOp) (a b : Int) (st : St) : Res :=
   | .ge => boolRes (a ≥ b) st
   | _ => .stuck "Duration operator without a rule"
 
+-- [shm] begin: `==` / `!=` on arrays of integers
+/-- std: `impl PartialEq<[U; N]> for [T; N]` — arrays are equal iff they are element-wise equal.  Only for
+    arrays of integers (an unsuffixed literal takes the type of the element it is compared with; two
+    different integer types, or different lengths, do not type-check: no rule). -/
+def intListEq : List Value → List Value → Option Bool
+  | [], [] => some true
+  | .int t a :: as, .int t' b :: bs =>
+    match IntTy.unify t t', intListEq as bs with
+    | some _, some r => some (decide (a = b) && r)
+    | _, _ => none
+  | _, _ => none
+-- [shm] end
+
 /-- strict binary operators (`&&` and `||` are lazy and handled by `eval`) -/
 def binOp (op : BinOp) : Value → Value → St → Res
   | .int t1 a, .int t2 b, st =>
@@ -706,6 +719,13 @@ def binOp (op : BinOp) : Value → Value → St → Res
     | .eq => boolRes (p = q) st
     | .ne => boolRes (p ≠ q) st
     | _ => .stuck "enum operator without a rule"
+  -- [shm] begin: `[T; N] == [T; N]`, `!=` (arrays of integers, see `intListEq`)
+  | .list as, .list bs, st =>
+    match op, intListEq as bs with
+    | .eq, some r => .val (.bool r) st
+    | .ne, some r => .val (.bool (!r)) st
+    | _, _ => .stuck "array operator without a rule"
+  -- [shm] end
   | _, _, _ => .stuck "binary operator: no rule for these operand types"
 
 /-- see `Ext.litFallback`: two integer operands of unknown type take the fallback type, if there is one -/
@@ -1176,11 +1196,43 @@ def lookupFn (fns : List (String × FnDecl)) : List String → Option FnDecl
     | some d => some d
     | none => lookupFn fns ks
 
+-- [poller] begin: trait-impl method resolution
+/-- does the function take a receiver (`self`, `&self`, `&mut self`)? -/
+def SelfKind.hasRecv : SelfKind → Bool
+  | .none => false
+  | _ => true
+
+/-- the methods named `m` (functions WITH a receiver) of the `impl` blocks of the translated files whose
+    self type is `tn`, whatever their key (`Trait for T::m`) -/
+def traitImplCands (fns : List (String × FnDecl)) (tn m : String) : List FnDecl :=
+  match fns with
+  | [] => []
+  | (_, d) :: rest =>
+    match d.selfTy == tn && d.ident == m && d.self.hasRecv with
+    | true => d :: traitImplCands rest tn m
+    | false => traitImplCands rest tn m
+
+/-- Rust: `x.m(..)` on a value of the struct type `T` that has no inherent method `m` is the method `m`
+    of a trait implemented for `T` (here: `impl ChronyOperations for ClockErrorBoundPoller`, called
+    through a parameter `impl ChronyOperations`; the interpreter is dynamically typed, so the value's
+    own type decides, as monomorphisation does).  A rule only when EXACTLY ONE impl block for `T` in the
+    translated files has such a method (two traits with the same method name are ambiguous in Rust, and
+    impls for different instances of a generic type share the bare name `T`: no rule then). -/
+def traitImplDecl (fns : List (String × FnDecl)) (tn m : String) : Option FnDecl :=
+  match traitImplCands fns tn m with
+  | [d] => some d
+  | _ => none
+-- [poller] end
+
 /-- the method `m` of a user-defined type in `fns`: `x.m(..)` on a struct value of type `T`, or on a
     variant of an enum `T` of the generated tables, is `T::m` -/
 def methodDecl (fns : List (String × FnDecl)) (enums : List (String × List (String × Nat))) :
     Value → String → Option FnDecl
-  | .struct tn _, m => lookupFn fns [tn ++ "::" ++ m]
+  | .struct tn _, m =>
+    match lookupFn fns [tn ++ "::" ++ m] with
+    | some d => some d
+    -- [poller] no inherent method `T::m`: the method `m` of the one trait impl for `T` that has it
+    | none => traitImplDecl fns tn m
   | .enumv p args, m =>
     match userTypeName (.enumv p args) with
     | some tn => lookupFn fns [tn ++ "::" ++ m]
@@ -1189,6 +1241,35 @@ def methodDecl (fns : List (String × FnDecl)) (enums : List (String × List (St
       | some tn => lookupFn fns [tn ++ "::" ++ m]
       | none => none
   | _, _ => none
+
+-- [errors] BEGIN ------------------------------------------------------------------------------------
+/-- further candidate keys for a call `T::f(a)` with ONE argument that is a variant of an enum `E` of the
+    generated tables: the trait impl `From<E> for T::from`.  (`callKeys` names the impl after `typeName a`,
+    which for an enum value is the path of the VARIANT, except for the two enums `userTypeName` knows; the
+    dynamic type of a variant of `E` is `E`.)  Tried only when `callKeys` found nothing. -/
+def enumFromKeys (enums : List (String × List (String × Nat))) (fr : Frame) (segs : List String) :
+    List Value → List String
+  | [.enumv p _] =>
+    match enumOfVariant enums p with
+    | some t => ["From<" ++ t ++ "> for " ++ canon fr.selfTy segs]
+    | none => []
+  | _ => []
+/-- a FUNCTION PATH (two or more segments: `T::f`, `m::f`) as the only argument of a method call -/
+def fnPathArg : List Expr → Option (List String)
+  | [.path (a :: b :: segs)] => some (a :: b :: segs)
+  | _ => none
+
+/-- names that are not Rust identifiers, for the arguments a function path is applied to -/
+def fnPathParams : List Value → List (String × Value)
+  | [] => []
+  | [v] => [("{arg0}", v)]
+  | v :: w :: _ => [("{arg0}", v), ("{arg1}", w)]
+
+def fnPathArgs : List Value → List Expr
+  | [] => []
+  | [_] => [.path ["{arg0}"]]
+  | _ :: _ :: _ => [.path ["{arg0}"], .path ["{arg1}"]]
+-- [errors] END --------------------------------------------------------------------------------------
 
 /-- bind the arguments to the parameter patterns (ascribing the declared types) -/
 def bindParams : Nat → String → List (Pat × String) → List Value → Option (List (String × Value))
@@ -1257,6 +1338,15 @@ def eval : Nat → Ctx → Frame → Expr → St → Res
                 | .tuple [v, _] => .val v st
                 | _ => .stuck "internal: callDecl result"
             | none =>
+            -- [errors] BEGIN: `T::from(a)` with `a` a variant of an enum `E` of the tables: `From<E> for T::from`
+            match lookupFn ctx.fns (enumFromKeys ctx.enums fr segs vs) with
+            | some d =>
+              (callDecl n ctx d .unit vs st).bind fun rv st =>
+                match rv with
+                | .tuple [v, _] => .val v st
+                | _ => .stuck "internal: callDecl result"
+            | none =>
+            -- [errors] END
               -- the remaining built-in rules: integer conversions, `size_of::<T>()`; then the dictionary
               firstRule (intConvCall (canon fr.selfTy segs) vs st)
                 (match vs, sizeOf ctx.sizes (lastSeg segs) with
@@ -1281,6 +1371,17 @@ def eval : Nat → Ctx → Frame → Expr → St → Res
         | none => .stuck "method with a closure argument: no rule"
     | .mcall recv m args =>
       (eval n ctx fr recv st).bind fun rv st =>
+        -- [errors] BEGIN: a function path where a method of `Option` / `Result` expects a closure
+        -- (`r.map_err(ClockBoundError::from)`): `T::f` stands for `|x| T::f(x)` — the plan of `closureMethod`,
+        -- with the call `T::f(args)` as the closure body.  Applies only when the receiver/method pair has a
+        -- closure plan AND the single argument is syntactically a path of two or more segments.
+        match fnPathArg args, closureMethod rv m with
+        | some _, some (.done v) => .val v st
+        | some segs, some (.app cargs w) =>
+          ((eval n ctx fr (.call segs (fnPathArgs cargs)) { st with env := fnPathParams cargs ++ st.env }).popTo
+            st.env.length).bind fun v st => .val (wrapWith w v) st
+        | _, _ =>
+        -- [errors] END
         (evalList n ctx fr args st).bind fun av st =>
           match av with
           | .tuple vs =>
@@ -1302,6 +1403,27 @@ def eval : Nat → Ctx → Frame → Expr → St → Res
               | none =>
                 firstRule (ctx.ext.method ctx.inputs rv m vs st) (.stuck "method call without a rule")
           | _ => .stuck "internal: evalList result"
+    -- [poller] `&mut x` of a LOCAL VARIABLE `x` (as in `f.read_to_string(&mut contents)`): the mutable
+    -- reference is the object `ext "&mut" [x]`.  The core has no rule that reads or writes through it
+    -- (`*r`, a field, a method on it, passing it to a function of `fns` and using it there: all stuck);
+    -- only a dictionary rule for a LIBRARY method that is called in the scope of `x` may store through
+    -- it (`envSet`).  `&mut` of anything else stays without a rule (`unOp .refMut`).
+    | .unary .refMut (.path [x]) =>
+      match envGet st.env x with
+      | some _ => .val (.ext "&mut" [.str x]) st
+      | none => .stuck "&mut of something that is not a local variable"
+    -- [errors] BEGIN: `&mut *p` where `p` is an object of an extension dictionary (a raw pointer): the
+    -- reborrow of the place the dictionary's `deref` rule gives for `*p`.  VALUE SEMANTICS: what comes back
+    -- is the pointee's content; a local bound to it holds a copy, and writes to that copy are seen by later
+    -- reads through the same local only (not through `p`).  A dictionary that gives `deref` on a pointer
+    -- vouches that the functions it is used for reach the pointee through one name at a time (as in
+    -- `let ctx = &mut *ctx;`, which shadows the pointer).  On every other value `&mut` stays without a rule.
+    | .unary .refMut (.unary .deref e) =>
+      (eval n ctx fr e st).bind fun v st =>
+        match v with
+        | .ext tag args => runUnary ctx .deref (.ext tag args) st
+        | _ => .stuck "&mut borrow"
+    -- [errors] END
     | .unary op e => (eval n ctx fr e st).bind fun v st => runUnary ctx op v st
     | .binary .and a b =>
       -- `&&` evaluates its right operand only if the left one is true
@@ -1359,6 +1481,13 @@ def eval : Nat → Ctx → Frame → Expr → St → Res
     | .ret none => .ret .unit st
     | .ret (some e) => (eval n ctx fr e st).bind fun v st => .ret v st
     | .tuple es => evalList n ctx fr es st
+    -- [errors] BEGIN: `S { .., ..Default::default() }`: the base of a struct update has the type of the
+    -- literal, so `Default::default()` there is `<S as Default>::default()`, i.e. the call `S::default()`
+    -- (`callKeys` finds `Default for S::default`)
+    | .structLit segs fields (some (.call ["Default", "default"] [])) =>
+      eval n ctx fr (.structLit segs fields
+        (some (.call [if lastSeg segs = "Self" then fr.selfTy else lastSeg segs, "default"] []))) st
+    -- [errors] END
     | .structLit segs fields rest =>
       (evalFields n ctx fr fields st).bind fun fv st =>
         match fv with
